@@ -40,6 +40,11 @@ FIRST = {
     "C11-first-description-sticks": "exit 0 (the metadata arm of run_transport had no boundary) -> arm lifted (R29) and contracted: latest unit / description win",
     "C17-histogram-closure-captures-outer-key": "exit 0 (the register_* forwarders had no contract) -> forwarding contracts on the three methods (a one-line variant of the change is reported); the change itself introduces a helper with closures that is outside the template, so it now ends undecided",
     "C17-allowlist-binary-search-unsorted": "same (the change swaps the HashSet for a Vec: the representation-dependent spec no longer type-checks)",
+    "C01-w3m2-histogram-s-level-only-arm-still-matches-the-who": "exit 0 (the level-only prefix form was exercised without labels) -> harness c01_macro_level_only_labels",
+    "C16-w3m2-drain-sample-rate-computes-self-len-as-f64-unsam": "exit 0 (the rate was only read before the first next()) -> c16_rate_and_reset with an arbitrary number of values already taken",
+    "C20-w3m2-weakrecorder-describe-counter-gauge-histogram-up": "exit 0 (no harness described with unit None AND an empty description) -> the second description of the argument table is the empty string",
+    "C20-w3m1-recoveryhandle-into-inner-no-longer-retries-arc-": "exit 2 (std::hint::spin_loop is an unsupported intrinsic) -> stubbed; still undecided: the change spins on a plain strong_count load that the R/G stub does not drive (unwinding bound)",
+    "C14-w3m2-clone-shared-cow-clone-for-the-shared-kin": "exit 0 (every element type in the harnesses had alignment <= 8) -> c14_slice_shared_overaligned (align 32)",
     "C17-new-span-merges-current-not-parent": "exit 2 expected, not run (Context stub lacked lookup_current) -> stub widened",
     "C17-filter-sees-empty-value": "exit 2 expected, not run (closure annotation keyed to parameter names) -> annotation by position",
 }
